@@ -1,6 +1,7 @@
 """C01 — parameter and return annotations are reflected exactly in the GIR."""
 import os
 import random
+import zlib
 import re
 import sys
 
@@ -19,6 +20,7 @@ P = T_ptr
 TYPES = [
     ('gint', T_td('gint')), ('guint8', T_td('guint8')), ('gboolean', T_td('gboolean')), ('gsize', T_td('gsize')),
     ('gdouble', T_td('gdouble')), ('int', T_basic('int')), ('FooEnum', T_td('FooEnum')), ('FooAlias', T_td('FooAlias')),
+    ('FooAlias2', T_td('FooAlias2')), ('FooCb2', T_td('FooCb2')),
     ('gint*', P(T_td('gint'))), ('gint**', P(P(T_td('gint')))), ('guint8*', P(T_td('guint8'))), ('gsize*', P(T_td('gsize'))), ('gchar*', P(T_td('gchar'))),
     ('const gchar*', P(T_td('gchar', True))), ('gchar**', P(P(T_td('gchar')))), ('gchar***', P(P(P(T_td('gchar'))))),
     ('gpointer', T_td('gpointer')), ('gpointer*', P(T_td('gpointer'))), ('void*', P(T_void())),
@@ -32,7 +34,7 @@ TYPES = [
     ('FooUnknown*', P(T_td('FooUnknown'))), ('GList**', P(P(T_td('GList')))), ('FooEnum*', P(T_td('FooEnum'))), ('FooAlias*', P(T_td('FooAlias'))),
 ]
 TYPE_BY = dict(TYPES)
-RET_TYPES = [t for t in TYPES if t[0] not in ('FooCb', 'GFunc', 'GDestroyNotify', 'GAsyncReadyCallback')] + [('void', T_void())]
+RET_TYPES = [t for t in TYPES if t[0] not in ('FooCb', 'FooCb2', 'GFunc', 'GDestroyNotify', 'GAsyncReadyCallback')] + [('void', T_void())]
 TYPE_NAMES = ['utf8', 'gint', 'guint8', 'filename', 'gpointer', 'int', 'gchar*', 'gchar', 'gint8', 'gintptr', 'gboolean', 'FooRec', 'Foo.Rec',
               'FooObj', 'Foo.Obj', 'GObject', 'GObject.Object', 'GLib.Variant', 'FooEnum', 'Bogus', 'Foo.Bogus', 'FooBox', 'gdouble', 'guint']
 OVERRIDE_TYPES = ['utf8', 'filename', 'gint', 'gpointer', 'FooRec', 'Foo.Obj', 'GObject.Object', 'Bogus', 'FooBox', 'GLib.List', 'GLib.HashTable',
@@ -60,7 +62,7 @@ def gen_annotations(rng, tname, others, position, cbtype):
     """mostly-valid annotations for a value of C type `tname`; `others`: names of the other parameters"""
     anns = []
     is_ptr = tname.endswith('*') or tname in ('gpointer', 'GStrv')
-    is_cb = tname in ('FooCb', 'GFunc', 'GDestroyNotify', 'GAsyncReadyCallback')
+    is_cb = tname in ('FooCb', 'FooCb2', 'GFunc', 'GDestroyNotify', 'GAsyncReadyCallback')
     container = tname.rstrip('*') in ('GList', 'GSList', 'GHashTable', 'GArray', 'GPtrArray', 'GByteArray')
     wild = rng.random() < 0.25          # the separate malformed stream: annotations regardless of fit
 
@@ -137,7 +139,7 @@ def gen_callable(rng, i, cbtype):
     for k in range(n):
         r = rng.random()
         if r < 0.15:
-            tn = rng.choice(['FooCb', 'GFunc', 'GAsyncReadyCallback'])
+            tn = rng.choice(['FooCb', 'GFunc', 'GAsyncReadyCallback', 'FooCb2'])
         elif r < 0.22:
             tn = 'GDestroyNotify'
         elif r < 0.34:
@@ -177,6 +179,11 @@ def comment_for(c, line0):
         if anns is None:
             continue
         plines[k] = line0 + len(lines)
+        if len(anns) >= 2 and (zlib.crc32(c['name'].encode()) + k) % 3 == 0:
+            # annotations continued on a second line: they add to those of the first line
+            lines.append(' * @%s: %s' % (nm, render_ann(anns[0])))
+            lines.append(' *   %s: doc of %s' % (' '.join(render_ann(a) for a in anns[1:]), nm))
+            continue
         lines.append(' * @%s: %s%sdoc of %s' % (nm, ' '.join(render_ann(a) for a in anns), ': ' if anns else '', nm))
     lines.append(' *')
     lines.append(' * description')
@@ -184,7 +191,11 @@ def comment_for(c, line0):
     if c['ret_ann'] is not None:
         lines.append(' *')
         rline = line0 + len(lines)
-        lines.append(' * Returns: %s%sthe result' % (' '.join(render_ann(a) for a in c['ret_ann']), ': ' if c['ret_ann'] else ''))
+        if len(c['ret_ann']) >= 2 and zlib.crc32(c['name'].encode()) % 3 == 1:
+            lines.append(' * Returns: %s' % render_ann(c['ret_ann'][0]))
+            lines.append(' *   %s: the result' % ' '.join(render_ann(a) for a in c['ret_ann'][1:]))
+        else:
+            lines.append(' * Returns: %s%sthe result' % (' '.join(render_ann(a) for a in c['ret_ann']), ': ' if c['ret_ann'] else ''))
     lines.append(' */')
     return '\n'.join(lines), plines, rline
 
@@ -376,6 +387,13 @@ def direct_clauses(ck, c, agrees_with_model=None):
             ao = dict(d['array'])
             if 'fixed-size' in ao and o['fixed'] != ao['fixed-size']:
                 ck.failing_input('(array fixed-size=N) is not emitted', case, detail=o)
+            # zero-terminated as a GIR reader takes it: the attribute if present, else "has neither length nor fixed-size"
+            want_zero = 'zero-terminated' in ao and ao['zero-terminated'] != '0'
+            got_zero = o['zero'] if o['zero'] is not None else (o['length'] is None and o['fixed'] is None)
+            if want_zero != got_zero:
+                ck.failing_input('(array%s) is emitted as %szero-terminated' % (' zero-terminated' + ('=' + ao['zero-terminated'] if ao.get('zero-terminated') else '')
+                                                                                  if 'zero-terminated' in ao else '', '' if got_zero else 'not '),
+                                 case, detail=o)
             if 'length' in ao:
                 finals = [p[0] for p in c['params'] if p[1] != 'GError**' or not c['throws']]
                 if o['length'] is None or o['length'] >= len(finals) or finals[o['length']] != ao['length']:
@@ -389,7 +407,7 @@ def direct_clauses(ck, c, agrees_with_model=None):
                             and (lp['direction'] or 'in') != (o['direction'] or 'in'):
                         ck.failing_input('the length parameter does not follow the direction of its array', case,
                                          detail=dict(array=o, length_param=lp))
-        if not c['cbtype'] and tn in ('FooCb', 'GFunc', 'GAsyncReadyCallback') and 'type' not in names:
+        if not c['cbtype'] and tn in ('FooCb', 'FooCb2', 'GFunc', 'GAsyncReadyCallback') and 'type' not in names:
             finals = [p for p in c['params'] if p[1] != 'GError**' or not c['throws']]
             fnames = [p[0] for p in finals]
             later = finals[k + 1:]
@@ -398,7 +416,7 @@ def direct_clauses(ck, c, agrees_with_model=None):
             h_destroy = None
             h_closure = None
             for q in later:
-                if q[1] in ('FooCb', 'GFunc', 'GAsyncReadyCallback') and not any(a[0] == 'type' for a in (q[2] or [])):
+                if q[1] in ('FooCb', 'FooCb2', 'GFunc', 'GAsyncReadyCallback') and not any(a[0] == 'type' for a in (q[2] or [])):
                     break
                 if q[1] == 'GDestroyNotify':
                     h_destroy = q[0]
@@ -438,7 +456,7 @@ def direct_clauses(ck, c, agrees_with_model=None):
         if c['cbtype'] and 'closure' in names and d['closure'] == [] and 7 in c['pwarn'][k] and o['closure'] == k and 'type' not in names:
             ck.failing_input('a (closure) reported as invalid on a callback-type parameter is emitted all the same', case, detail=o,
                              fid='C01-K4-invalid-closure-kept')
-        if not c['cbtype'] and tn not in ('FooCb', 'GFunc', 'GAsyncReadyCallback', 'GDestroyNotify'):
+        if not c['cbtype'] and tn not in ('FooCb', 'FooCb2', 'GFunc', 'GAsyncReadyCallback', 'GDestroyNotify'):
             # scope/closure/destroy on a non-callback: reported and inert
             for code, nmx in ((5, 'scope'), (6, 'destroy'), (7, 'closure')):
                 if nmx in names and code not in c['pwarn'][k]:
@@ -452,7 +470,7 @@ def direct_clauses(ck, c, agrees_with_model=None):
                 ck.failing_input('a free-form attribute is not emitted', case, detail=o)
 
 
-SCALARS = ('gint', 'guint8', 'gboolean', 'gsize', 'gdouble', 'int', 'FooAlias')   # enums by value count as valid sites in the scanner
+SCALARS = ('gint', 'guint8', 'gboolean', 'gsize', 'gdouble', 'int', 'FooAlias', 'FooAlias2')   # enums by value count as valid sites in the scanner
 
 
 def scalar_clauses(ck, c):
